@@ -916,6 +916,9 @@ func runC09(r *Report) {
 	c09R2(r)
 	c09R3(r)
 	c09R4(r)
+	c09R5(r)
+	c09R6(r)
+	c14R2(r.sub("R7"))
 }
 
 // anyMutationBeforeOverwrite: some path from `from` reaches a mutating bitmap call on the field before a store to it.
@@ -951,4 +954,189 @@ func anyMutationBeforeOverwrite(from ssa.Instruction, bm *types.Var) bool {
 	}
 	walk(from.Block(), instrIndex(from)+1)
 	return found
+}
+
+// R5 (from a round-2 seeded change): what the peer side reports is accepted by the torrent side. peer.drop always
+// reports a whole nominal block (TorDrop{index, begin, ChunkSize}), also for the short final block of the torrent,
+// so the range test that precedes the decrement in the TorData/TorDrop handlers must compare Begin+Length with a
+// bound that does not depend on the piece: with a per-piece bound (the real length of the last piece) the drop of
+// the final short block is refused and its in-flight count never comes down.
+func c09R5(r *Report) {
+	p := r.P
+	he := p.Func("tor", "handleEvent")
+	if !r.Anchor("R5", "tor.handleEvent", he != nil) {
+		return
+	}
+	r.Fn(he)
+	n := 0
+	// judge(f, isIdx, isLen): every branch of f whose condition involves the length subject must not compare it with
+	// something computed from the index subject
+	var judge func(f *ssa.Function, isIdx, isLen func(ssa.Value) bool, only func(*ssa.BasicBlock) bool, ev string, depth int)
+	judge = func(f *ssa.Function, isIdx, isLen func(ssa.Value) bool, only func(*ssa.BasicBlock) bool, ev string, depth int) {
+		allInstrs(f, func(in ssa.Instruction) {
+			if only != nil && !only(in.Block()) {
+				return
+			}
+			switch x := in.(type) {
+			case *ssa.If:
+				bo, ok := x.Cond.(*ssa.BinOp)
+				if !ok {
+					return
+				}
+				switch bo.Op {
+				case token.LSS, token.GTR, token.LEQ, token.GEQ:
+				default:
+					return
+				}
+				var other ssa.Value
+				if mentions(bo.X, isLen, 0) {
+					other = bo.Y
+				} else if mentions(bo.Y, isLen, 0) {
+					other = bo.X
+				} else {
+					return
+				}
+				n++
+				key := fmt.Sprintf("%s/%s/range-bound-not-per-piece", fname(f), ev)
+				r.Check(!mentions(other, isIdx, 0), "R5", key, x.Pos(), "the block range is tested against a bound that is the same for every piece",
+					"the TorData/TorDrop range test compares Begin+Length with "+exprStr(other)+", which depends on the piece index: peers report dropped blocks with the nominal block size, so the drop of the short final block of the torrent is refused and its in-flight count is never decremented (the block is not requested again after maxInFlight tries)")
+			case *ssa.Call:
+				// a validation helper handed the event's index and length
+				h := x.Call.StaticCallee()
+				if depth > 1 || h == nil || h.Blocks == nil || relPkg(h) != "tor" || x.Call.IsInvoke() {
+					return
+				}
+				ik, lk := -1, -1
+				for k, a := range x.Call.Args {
+					if isIdx(stripIntConv(a)) {
+						ik = k
+					}
+					if isLen(stripIntConv(a)) {
+						lk = k
+					}
+				}
+				if ik < 0 || lk < 0 || ik >= len(h.Params) || lk >= len(h.Params) {
+					return
+				}
+				ip, lp := h.Params[ik], h.Params[lk]
+				judge(h, func(v ssa.Value) bool { return v == ssa.Value(ip) }, func(v ssa.Value) bool { return v == ssa.Value(lp) }, nil, ev, depth+1)
+			}
+		})
+	}
+	for _, ev := range []string{"peer.TorData", "peer.TorDrop"} {
+		ev := ev
+		inCase := func(b *ssa.BasicBlock) bool { return eventTypeOfBlock(b) == ev }
+		fieldOf := func(name string) func(ssa.Value) bool {
+			return func(v ssa.Value) bool {
+				fv, base := loadedFieldAny(v)
+				if fv == nil || fv.Name() != name || base == nil {
+					return false
+				}
+				return typeShort(derefType(base.Type())) == ev
+			}
+		}
+		judge(he, fieldOf("Index"), fieldOf("Length"), inCase, ev, 0)
+	}
+	r.Sentinel("R5", n, 2)
+}
+
+// R6 (from a round-2 seeded change): a peer's events reach the torrent in the order they were produced. Events that
+// cannot be delivered at once wait in peer.events; every send on peer.torEvent therefore either delivers the head of
+// that queue or, for a new event, is made only when the queue is empty. A new event that overtakes queued ones
+// (a bitmap retraction before the bitmap it retracts) leaves the availability counters off by one for good.
+func c09R6(r *Report) {
+	p := r.P
+	te := p.Field("peer", "Peer", "torEvent")
+	evs := p.Field("peer", "Peer", "events")
+	if !r.Anchor("R6", "peer.Peer.torEvent", te != nil) || !r.Anchor("R6", "peer.Peer.events", evs != nil) {
+		return
+	}
+	var isHead func(v ssa.Value, d int) bool
+	isHead = func(v ssa.Value, d int) bool {
+		if d > 3 {
+			return false
+		}
+		switch x := v.(type) {
+		case *ssa.UnOp:
+			if x.Op == token.MUL {
+				if ia, ok := x.X.(*ssa.IndexAddr); ok {
+					if k, okk := constInt(ia.Index); okk && k == 0 {
+						fv, _ := loadedField(ia.X)
+						return fv == evs
+					}
+				}
+			}
+		case *ssa.Phi:
+			some := false
+			for _, e := range x.Edges {
+				if isNilConst(e) {
+					continue
+				}
+				if !isHead(e, d+1) {
+					return false
+				}
+				some = true
+			}
+			return some
+		}
+		return false
+	}
+	n := 0
+	for _, f := range p.SrcFuncs() {
+		if relPkg(f) != "peer" {
+			continue
+		}
+		for _, op := range chanOpsIn(f) {
+			for _, st := range op.States {
+				if st.Dir != types.SendOnly {
+					continue
+				}
+				cs := chanSourceOf(st.Chan)
+				if cs.Field != te {
+					continue
+				}
+				n++
+				r.Fn(f)
+				key := fmt.Sprintf("%s/send(torEvent)#%d", fname(f), n)
+				if isHead(st.Send, 0) {
+					r.Ok("R6", key, st.Pos, "delivers the head of the queue")
+					continue
+				}
+				empty := p.guardedIP(op.Instr, func(g Guard) bool {
+					opc, x, y, ok := cmpFact(g)
+					if !ok {
+						return false
+					}
+					isLenEvs := func(v ssa.Value) bool {
+						c, ok := stripIntConv(v).(*ssa.Call)
+						if !ok {
+							return false
+						}
+						bi, ok := c.Call.Value.(*ssa.Builtin)
+						if !ok || bi.Name() != "len" {
+							return false
+						}
+						fv, _ := loadedField(c.Call.Args[0])
+						return fv == evs
+					}
+					kx, okx := constInt(x)
+					ky, oky := constInt(y)
+					switch {
+					case isLenEvs(x) && oky:
+						return (opc == token.EQL && ky == 0) || (opc == token.LEQ && ky == 0) || (opc == token.LSS && ky == 1)
+					case isLenEvs(y) && okx:
+						return (opc == token.EQL && kx == 0) || (opc == token.GEQ && kx == 0) || (opc == token.GTR && kx == 1)
+					}
+					if nx, isNil, okn := nilFact(g); okn && isNil {
+						fv, _ := loadedField(nx)
+						return fv == evs
+					}
+					return false
+				}, 0)
+				r.Check(empty, "R6", key, st.Pos, "a new event is sent directly only when nothing is queued before it",
+					"a new event is sent on peer.torEvent without testing that peer.events is empty: it overtakes the events waiting in the overflow queue (e.g. TorPeerBitmap(false) before the queued TorPeerBitmap(true)), and the torrent's availability/in-flight counters end up wrong after the peer is gone")
+			}
+		}
+	}
+	r.Sentinel("R6", n, 3)
 }
